@@ -146,7 +146,10 @@ class Variable(FortranObj):
         # Alternatively, I could do a dictionary merge with local variables
         # having precedence by default and use a flag to override?
         if self.link_obj is not None:
-            return get_keywords(self.link_obj.keywords, self.link_obj.keyword_info)
+            # (a procedure or a type that the name is linked to has no keyword_info)
+            return get_keywords(
+                self.link_obj.keywords, getattr(self.link_obj, "keyword_info", None)
+            )
         return get_keywords(self.keywords, self.keyword_info)
 
     def is_optional(self):
